@@ -242,7 +242,7 @@ func init() {
 func (c17) ID() string        { return "C17" }
 func (c17) CoqModule() string { return "Check_C17" }
 func (c17) Rule() string {
-	return "requests: ContentLength in {-1,0,positive} x Content-Length header absent/0/other x nil or scripted body x TransferEncoding not set / chunked / identity / gzip,chunked / empty (about half of the generated requests, also as a header) x method; bodies 0..~10 KB " +
+	return "requests: ContentLength in {-1,0,positive} x Content-Length header absent/0/other x nil or scripted body or (1 generated request in 8, 100 enumerated) a standard-library body: the http.NoBody sentinel / io.NopCloser over a bytes.Reader / strings.Reader, half of them with a positive declared length x TransferEncoding not set / chunked / identity / gzip,chunked / empty (about half of the generated requests, also as a header) x method; bodies 0..~10 KB " +
 		"(sizes around the 4096-byte buffer), chunked 1-byte / random / buffer-boundary / single, with zero-length reads (runs up to 101), " +
 		"terminal EOF separate, data+EOF, none, or a scripted error after any byte (data+error or separate); histories of 1..14 calls of " +
 		"HasBody, Read k (k in 0,1,small,4095,4096,4097,large) and Close in any order incl. probes after reads, reads after close, double close; " +
